@@ -151,7 +151,7 @@ func genDbc43(g *G, forceWC int) *gDbc {
 			}
 			sg := &gSig{name: fmt.Sprintf("Sig%c%d", 'A'+byte(g.R.Intn(26)), si), signed: g.R.Bool(), factor: "1", offset: "0", min: "0", max: "0", recv: []string{node()}}
 			role := g.R.Intn(6)
-			if muxSig == nil && role == 0 && si < ns-1 {
+			if muxSig == nil && role <= 1 && si < ns-1 {
 				// multiplexer: unsigned, 2..16 bits (1-bit multiplexers are exercised separately)
 				ge, ok := pickGeo(g, m.size, used, 1+g.R.Intn(2))
 				if !ok {
@@ -378,7 +378,38 @@ func (m *gMsg) validFrame(g *G) string {
 	default:
 		p = g.R.U64()
 	}
+	// multiplexed messages: half of the frames select a group that exists
+	var mux *gSig
+	var sels []int
+	for _, s := range m.sigs {
+		if s.mux {
+			mux = s
+		}
+		if s.muxed {
+			sels = append(sels, s.muxVal)
+		}
+	}
+	if mux != nil && len(sels) > 0 && g.R.Bool() {
+		p = putBits(p, mux.geo, uint64(sels[g.R.Intn(len(sels))]))
+	}
 	return frameArg(m.id&0x7fffffff, m.size, p, false, m.id&0x80000000 != 0)
+}
+
+// putBits writes the low ge.L bits of v into the range ge of the LE-packed word p (documented numbering).
+func putBits(p uint64, ge Geo, v uint64) uint64 {
+	for j := 0; j < ge.L; j++ {
+		var pos int
+		var bit uint64
+		if ge.BE {
+			pos = BePos(ge.S, j)
+			bit = v >> uint(ge.L-1-j) & 1
+		} else {
+			pos = ge.S + j
+			bit = v >> uint(j) & 1
+		}
+		p = p&^(1<<uint(pos)) | bit<<uint(pos)
+	}
+	return p
 }
 
 func (m *gMsg) badFrame(g *G) string {
